@@ -150,6 +150,10 @@ pub enum Op {
     SetUniverse(usize),
     SetContains(usize, usize),
     SetDrop(usize),
+    /// `clone-object`: `BDDSet::clone` (a second set object with the same contents in the same
+    /// environment); original and copy are used independently afterwards
+    #[serde(alias = "SetClone")]
+    SetClone(usize),
     // N-world: formula clients
     Formula(F, u64, u8),
     /// a formula evaluated in the shared environment WITHOUT a common ordering: the parser numbers
@@ -201,6 +205,7 @@ impl Op {
             Op::SetUniverse(_) => "set.universe".into(),
             Op::SetContains(..) => "set.contains".into(),
             Op::SetDrop(_) => "set.drop".into(),
+            Op::SetClone(_) => "set.clone".into(),
             Op::Formula(..) => "formula.eval".into(),
             Op::FormulaOwnOrder(..) => "formula.eval(own order)".into(),
             Op::ReEval(_) => "formula.re-eval".into(),
@@ -263,7 +268,10 @@ pub struct Step {
     #[serde(default)]
     pub sym_fault: Option<u32>,
     /// `cross-env` (C02 only): bit i set = operand i is replaced by a structurally identical twin
-    /// that lives in a second environment (bit 7 clear) or in no environment at all (bit 7 set)
+    /// that lives in a second environment (bit 7 clear) or in no environment at all (bit 7 set).
+    /// 0x20 on a `set.contains` step: `borrow-held` (the client holds a shared borrow of the set's
+    /// public cell across the query). Bit 6 alone (0x40, C13): `clone-object` — the operation runs in a `Clone` of the shared
+    /// environment taken at that moment (and dropped afterwards) instead of the environment itself
     #[serde(default)]
     pub foreign: u8,
     pub client: u8,
@@ -561,7 +569,7 @@ pub fn gen_plan(rng: &mut Prng, property: &str, tier: &Tier) -> EnvPlan {
                     steps.push(mk(Op::SetContains(a, e)));
                     continue;
                 }
-                let set_weights: [u32; 12] = if marathon { [0, 1, 0, 0, 14, 3, 3, 3, 0, 0, 5, 0] } else { [2, 2, 1, 1, 6, 3, 3, 3, 1, 1, 6, 1] };
+                let set_weights: [u32; 13] = if marathon { [0, 1, 0, 0, 14, 3, 3, 3, 0, 0, 5, 0, 0] } else { [2, 2, 1, 1, 6, 3, 3, 3, 1, 1, 6, 1, 2] };
                 match rng.weighted(&set_weights) {
                     0 => Op::SetNew,
                     1 => Op::SetFromElement(e),
@@ -574,7 +582,8 @@ pub fn gen_plan(rng: &mut Prng, property: &str, tier: &Tier) -> EnvPlan {
                     8 => Op::SetEmpty(a),
                     9 => Op::SetUniverse(a),
                     10 => Op::SetContains(a, e),
-                    _ => Op::SetDrop(a),
+                    11 => Op::SetDrop(a),
+                    _ => Op::SetClone(a),
                 }
             }
             2 => match rng.weighted(&[5, 2, 1, if faults.cancel { 1 } else { 0 }]) {
@@ -662,6 +671,11 @@ pub fn gen_plan(rng: &mut Prng, property: &str, tier: &Tier) -> EnvPlan {
                 ));
         let foreign = if foreign_ok && cross_env && rng.chance(faults.rate.max(10), 100) {
             (rng.range(1, 7) as u8) | if rng.coin() { 0x80 } else { 0 }
+        } else if property == "C13" && op.is_raw() && !matches!(op, Op::Fp(..)) && rng.chance(1, 40) {
+            0x40
+        } else if matches!(op, Op::SetContains(..)) && rng.chance(1, 6) {
+            // `borrow-held`: the client holds a shared borrow of the set's public cell across the query
+            0x20
         } else {
             0
         };
@@ -1747,7 +1761,20 @@ impl<'p, W: World> Exec<'p, W> {
         let symf = move |i: usize| W::sym(&names, i);
         rsbdd::verif_hooks::reset();
         rsbdd::verif_hooks::set_budget(Some(STEP_TICK_BUDGET));
-        let env = Rc::clone(&self.env);
+        let in_clone = step.foreign == 0x40 && self.prop() == "C13";
+        let env = if in_clone {
+            match catch(|| Rc::new((*self.env).clone())) {
+                Caught::Ok(e) => {
+                    bump(&mut self.stats, "fault.clone-object");
+                    self.faults_fired += 1;
+                    e
+                }
+                Caught::Panic(m, l) => return Err(viol("C13", "I4", &format!("clone@{l}"), step_no, format!("cloning the environment panicked: {m} @ {l}"))),
+                _ => return Ok(()),
+            }
+        } else {
+            Rc::clone(&self.env)
+        };
         SYM_FAULT.with(|c| c.set(step.sym_fault));
         let shared = catch(|| apply(&env, &symf, nvars, op, &args));
         let sym_cancelled = step.sym_fault.is_some() && SYM_FAULT.with(|c| c.get()).is_none() && matches!(shared, Caught::Cancel);
@@ -1772,6 +1799,10 @@ impl<'p, W: World> Exec<'p, W> {
             self.faults_fired += 1;
             self.cancelled_before = true;
         }
+        if in_clone && self.env.size() != size_before {
+            return Err(viol("C13", "I2", &opname, step_no, format!("{opname} in a clone of the environment changed the size of the original ({size_before} -> {})", self.env.size())));
+        }
+        drop(env);
         if self.env.size() > size_before {
             bump(&mut self.stats, "probe.table.grew");
         } else {
@@ -1919,7 +1950,7 @@ impl<'p, W: World> Exec<'p, W> {
                         }
                         // C13 with an outside operand: the result may be that operand itself
                         // (pass-through cases), which no environment holds; it is judged (I2) and dropped
-                        if step.keep && !(foreign_used && self.prop() == "C13") {
+                        if step.keep && !((foreign_used || in_clone) && self.prop() == "C13") {
                             self.keep(Rc::clone(d), tt);
                         } else {
                             bump(&mut self.stats, "fault.noise-build");
@@ -1934,7 +1965,7 @@ impl<'p, W: World> Exec<'p, W> {
                     Res::List(l) => self.trace.push(mix(&[step_no as u64, l.len() as u64])),
                     Res::Unit => {}
                 }
-                if !(foreign_used && self.prop() == "C13") {
+                if !((foreign_used || in_clone) && self.prop() == "C13") {
                     if self.log.len() >= 8 {
                         self.log.remove(0);
                     }
@@ -2341,6 +2372,21 @@ impl<'p> Exec<'p, UWorld> {
                     }
                 }
             }
+            Op::SetClone(s) => {
+                if let (Some(k), true) = (self.set_id(*s), nsets < 4) {
+                    let slot = &self.ext[&k];
+                    let (src, model) = (&slot.set, slot.model.clone());
+                    match catch(|| src.clone()) {
+                        Caught::Ok(set) => {
+                            self.ext.insert(new_id, SetSlot { set, model });
+                            bump(&mut self.stats, "fault.clone-object");
+                            self.faults_fired += 1;
+                        }
+                        Caught::Panic(m, l) if c19 => return Err(viol("C19", "S5", &format!("{opname}@{l}"), step_no, format!("{opname} panicked: {m} @ {l}"))),
+                        _ => {}
+                    }
+                }
+            }
             Op::SetDrop(s) => {
                 if let (Some(k), true) = (self.set_id(*s), nsets > 1) {
                     self.ext.remove(&k);
@@ -2398,7 +2444,17 @@ impl<'p> Exec<'p, UWorld> {
                     Op::SetContains(_, e) => {
                         let e = mask_bits(*e, b);
                         expect_contains = Some(sets[&k].model.contains(e));
-                        catch(|| Some(sets[&k].set.contains(e)))
+                        if step.foreign == 0x20 {
+                            // queries do not modify the set: a reader of its diagram may be active
+                            let held = sets[&k].set.bdd.borrow();
+                            let r = catch(|| Some(sets[&k].set.contains(e)));
+                            drop(held);
+                            bump(&mut self.stats, "fault.borrow-held");
+                            self.faults_fired += 1;
+                            r
+                        } else {
+                            catch(|| Some(sets[&k].set.contains(e)))
+                        }
                     }
                     _ => unreachable!(),
                 };
